@@ -3,6 +3,17 @@ from .values import *
 
 
 class Joins:
+    _sides = None
+
+    def join_sided(self, a, ea, b, eb, env, widen=False):
+        """join of value a as seen in environment ea with b as seen in eb; new cells are minted in env (the joined environment)"""
+        old = self._sides
+        self._sides = (ea, eb)
+        try:
+            return self.join(a, b, env, widen)
+        finally:
+            self._sides = old
+
     def join(self, a, b, env, widen=False):
         S = self.ctx.S
         if a is b:
@@ -36,6 +47,8 @@ class Joins:
         if isinstance(a, ListOf) and isinstance(b, Tup):
             return self.join(a, ListOf(self._elem_join(b, env), len(b.elems), len(b.elems)), env, widen)
         if isinstance(b, ListOf) and isinstance(a, Tup):
+            if self._sides:
+                return self.join_sided(b, self._sides[1], a, self._sides[0], env, widen)
             return self.join(b, a, env, widen)
         if isinstance(a, Opaque) and isinstance(b, Opaque) and a.kind == b.kind:
             return a
@@ -73,22 +86,23 @@ class Joins:
 
     def join_str(self, a, b, env):
         S = self.ctx.S
+        ea, eb = self._sides or (env, env)
         if a.fixed and b.fixed and len(a.pre) == len(b.pre):
             cells = []
             for x, y in zip(a.pre, b.pre):
-                if x is y or x == y:
+                if (x is y or x == y) and (isinstance(x, frozenset) or x in env.store):
                     cells.append(x)
                 else:
-                    cells.append(env.new_cell(env.cls(x) | env.cls(y)))
+                    cells.append(env.new_cell(ea.cls(x) | eb.cls(y)))
             return Str(cells, imprecise=a.imprecise or b.imprecise, sid=a.sid if a.sid == b.sid else None)
         # different shapes: keep as many leading/trailing positions as both have
         lo = min(a.lo or 0, b.lo or 0)
         hi = None if (a.hi is None or b.hi is None) else max(a.hi, b.hi)
         k = min(self._npre(a), self._npre(b))
         m = min(self._nsuf(a), self._nsuf(b))
-        pre = [env.new_cell(self._pcls(a, i, env) | self._pcls(b, i, env)) for i in range(k)]
-        suf = [env.new_cell(self._scls(a, j, env) | self._scls(b, j, env)) for j in range(m)]
-        body = env.new_cell(S.join_cls(env, a) | S.join_cls(env, b))
+        pre = [env.new_cell(self._pcls(a, i, ea) | self._pcls(b, i, eb)) for i in range(k)]
+        suf = [env.new_cell(self._scls(a, j, ea) | self._scls(b, j, eb)) for j in range(m)]
+        body = env.new_cell(S.join_cls(ea, a) | S.join_cls(eb, b))
         # two refinements of one and the same runtime string keep its identity
         return Str(pre, body, suf, lo, hi, a.imprecise or b.imprecise, sid=a.sid if a.sid == b.sid else None)
 
@@ -113,16 +127,18 @@ class Joins:
     def join_env(self, a, b, widen=False):
         """Join b into a new env based on a. Cells with the same id get the union of classes."""
         e = a.copy()
+        st = e.store
         for k, v in b.store.items():
-            if k in e.store:
-                e.store[k] = e.store[k] | v
-            else:
-                e.store[k] = v
+            cur = st.get(k)
+            if cur is None:
+                st[k] = v
+            elif cur is not v and cur != v:
+                st[k] = cur | v
         for fi, (fa, fb) in enumerate(zip(a.frames, b.frames)):
             out = {}
             for k in fa:
                 if k in fb:
-                    out[k] = self.join(fa[k], fb[k], e, widen)
+                    out[k] = self.join_sided(fa[k], a, fb[k], b, e, widen)
                 # variables defined on one side only are dropped (possibly undefined)
             e.frames[fi] = out
         e.dead = a.dead and b.dead
